@@ -18,18 +18,19 @@ import (
 )
 
 type EvalCtx struct {
-	fe       *FnExec
-	st       *State
-	old      *State
-	binds    map[string]Val
-	fr       *frame         // for locals by source name (nil when evaluating a callee contract at a call site)
-	pkg      *types.Package // scope for package-level names
-	conFile  string
-	bound    map[string]Term // quantifier variables
-	wantAddr bool
-	fr0      *frame
-	lazyFn   *ssa.Function  // closure whose locals / parameters are unknowns (last-call rule)
-	oldBinds map[string]Val // bindings used inside old(...) in that mode
+	fe            *FnExec
+	st            *State
+	old           *State
+	binds         map[string]Val
+	fr            *frame         // for locals by source name (nil when evaluating a callee contract at a call site)
+	pkg           *types.Package // scope for package-level names
+	conFile       string
+	bound         map[string]Term // quantifier variables
+	wantAddr      bool
+	hwPre, hwPost Term // allocation watermarks around the call whose contract is being evaluated
+	fr0           *frame
+	lazyFn        *ssa.Function  // closure whose locals / parameters are unknowns (last-call rule)
+	oldBinds      map[string]Val // bindings used inside old(...) in that mode
 }
 
 func (fe *FnExec) ctxFor(fr *frame, st *State) *EvalCtx {
@@ -654,6 +655,10 @@ func (c *EvalCtx) evalCall(x *ast.CallExpr) Val {
 	case "freshobj":
 		// freshobj(x): x was allocated by this call (distinct from everything that existed before)
 		v := termOf(c.eval(args[0]))
+		if c.hwPre != "" {
+			// in a callee's contract at a call site: allocated during that call
+			return BoolV{tAnd(sx("<", c.hwPre, v), sx("<=", v, c.hwPost))}
+		}
 		return BoolV{sx("<", "HW", v)}
 	case "sumlen":
 		// total length of the elements of a slice of byte slices
